@@ -424,6 +424,56 @@ pub fn run(ctx: &Ctx) {
             }
         }
     });
+    // byte-buffer targets fed with string literals holding raw (often non-UTF-8) bytes
+    ctx.search(&subs[1], "bytes-literals", ctx.n(400_000, 4_000_000), 120, &|src: &mut Src| {
+        fn lit(src: &mut Src, out: &mut Vec<u8>) {
+            out.push(b'"');
+            let n = src.below(8);
+            for _ in 0..n {
+                out.push(*src.pick(&[b'a', b'z', 0xff, 0xfe, 0x80, 0xc3, 0xa9, 0xe4, 0xb8, 0xad, 0xf0, 0x9f, 0x20, 0x7f, 0xed, 0xa0, b'0']));
+            }
+            if src.chance(50) {
+                out.extend_from_slice(*src.pick(&[&b"\\n"[..], b"\\u00e9", b"\\\"", b"\\\\", b"\\ud83d\\ude00", b"\\u0000"]));
+            }
+            out.push(b'"');
+        }
+        let idx = *src.pick(&[49u8, 60, 61, 62]);
+        let mut c = vec![idx];
+        match idx {
+            49 => lit(src, &mut c),
+            60 => {
+                c.push(b'[');
+                let n = src.below(5);
+                for i in 0..n {
+                    if i > 0 {
+                        c.push(b',');
+                    }
+                    lit(src, &mut c);
+                }
+                c.push(b']');
+            }
+            61 => {
+                c.push(b'{');
+                let n = src.below(5);
+                for i in 0..n {
+                    if i > 0 {
+                        c.push(b',');
+                    }
+                    c.extend_from_slice(format!("\"k{i}\":").as_bytes());
+                    lit(src, &mut c);
+                }
+                c.push(b'}');
+            }
+            _ => {
+                c.push(b'[');
+                lit(src, &mut c);
+                c.extend_from_slice(b",\"plain text\",");
+                lit(src, &mut c);
+                c.push(b']');
+            }
+        }
+        c
+    });
     ctx.search(&subs[0], "values", ctx.n(6_000_000, 60_000_000), 300, &|src: &mut Src| {
         let mut c = vec![if src.chance(8) { 200u8 } else { src.below(family::N_TYPES) as u8 }];
         c.extend_from_slice(src.rest());
